@@ -163,7 +163,14 @@ func (m *machB) verdict() bool {
 		return false
 	}
 	s := m.pool.VerifSnapshot()
-	if f := checkPool(m.pool, s, m.feeOf, m.lookup); f != nil {
+	f, soft := checkPoolSoft(m.pool, s, m.feeOf, m.lookup)
+	for _, sf := range soft {
+		if !vk.Report(m.t, "C34:"+sf.sig, sf.detail, m.render()) {
+			m.dead = true
+			return false
+		}
+	}
+	if f != nil {
 		m.dead = true
 		vk.Report(m.t, "C34:"+f.sig+":"+m.op, f.detail, m.render())
 		return false
